@@ -71,6 +71,28 @@ Definition w_clear : list cgraph := [ {| cg_meta := false; cg_doc := false; cg_n
 Lemma clear_flag_refuted_witness : snd (clear_pass w_clear) = false /\ fst (clear_pass w_clear) <> w_clear.
 Proof. split; [reflexivity | vm_compute; intros H; discriminate]. Qed.
 
+(* repaired flag: full statement *)
+Lemma clear_graph_fixed_sound g : snd (clear_graph_fixed g) = false -> fst (clear_graph_fixed g) = g.
+Proof.
+  destruct g as [gm gd ns]. unfold clear_graph_fixed, clear_graph. simpl.
+  destruct ns as [|n ns]; [reflexivity|]. intros Hf.
+  apply orb_false_iff in Hf. destruct Hf as [Hf Hd]. apply orb_false_iff in Hf. destruct Hf as [He Hm].
+  simpl in Hm, Hd. subst gm gd. simpl. f_equal.
+  assert (K : forall l : list (bool * bool), existsb (fun n => fst n || snd n) l = false ->
+              map (fun _ => (false, false)) l = l).
+  { induction l as [|[a b] l IH]; simpl; intros H; [reflexivity|].
+    apply orb_false_iff in H. destruct H as [H1 H2]. apply orb_false_iff in H1. destruct H1; subst.
+    f_equal. apply IH. exact H2. }
+  exact (K (n :: ns) He).
+Qed.
+
+Lemma clear_fixed_flag_sound m : snd (clear_pass_fixed m) = false -> fst (clear_pass_fixed m) = m.
+Proof.
+  unfold clear_pass_fixed. simpl. induction m as [|g m IH]; intros Hf; [reflexivity|].
+  simpl in Hf |- *. apply orb_false_iff in Hf. destruct Hf as [Hg Hm].
+  f_equal; [apply clear_graph_fixed_sound; assumption | apply IH; assumption].
+Qed.
+
 (* ====================================================================== RemoveUnusedNodes (flat) *)
 Lemma drop_nones_idem l : drop_nones (drop_nones l) = drop_nones l.
 Proof. induction l as [|[x|] l IH]; simpl; [reflexivity | reflexivity | exact IH]. Qed.
@@ -140,6 +162,35 @@ Proof.
   apply (converge_fixpoint dgraph dce dce_size dce_measure dce_inv dce_inv_est dce_size_mono dce_flag_sound_partial).
 Qed.
 
+(* repaired count: full statement *)
+Lemma ins_eqb_eq a b : ins_eqb a b = true -> a = b.
+Proof.
+  unfold ins_eqb. apply list_eqb_eq. intros [x|] [y|]; simpl; split; intros H; try discriminate; try reflexivity.
+  - apply Pos.eqb_eq in H. subst. reflexivity.
+  - inversion H. apply Pos.eqb_refl.
+Qed.
+
+Lemma sweep_fixed_zero outs : forall l before l' c, sweep_fixed outs before l = (l', c) -> c = 0 -> l' = l.
+Proof.
+  induction l as [|n rest IH]; simpl; intros before l' c H Hc.
+  - inversion H; reflexivity.
+  - destruct (sweep_fixed outs (before ++ [n]) rest) as [rest' c'] eqn:E.
+    destruct (forallb _ (d_outs n)); inversion H; subst; [discriminate|].
+    destruct (ins_eqb (trim (d_ins n)) (d_ins n)) eqn:T; [|discriminate].
+    apply ins_eqb_eq in T. rewrite (IH _ _ _ E H2).
+    destruct n as [i ins os]. unfold trim_node. simpl in *. rewrite T. reflexivity.
+Qed.
+
+Lemma dce_fixed_flag_sound g : snd (dce_fixed g) = false -> fst (dce_fixed g) = g.
+Proof.
+  unfold dce_fixed. destruct (sweep_fixed (d_outputs g) [] (d_nodes g)) as [ns c] eqn:E. simpl. intros H.
+  apply negb_false_iff in H. apply Nat.eqb_eq in H.
+  assert (Hc : c = 0) by lia. rewrite (sweep_fixed_zero _ _ _ _ _ E Hc) in *.
+  match goal with |- context [filter ?p (d_inits g)] =>
+    assert (F : filter p (d_inits g) = d_inits g) by (apply filter_length_id; lia) end.
+  rewrite F. destruct g; reflexivity.
+Qed.
+
 (* Clip(x, None, None) feeding the graph output: kept, trimmed, count = 0 *)
 Definition w_dce : dgraph :=
   {| d_nodes := [ {| d_id := 1; d_ins := [Some 10; None; None]; d_outs := [11] |} ]%positive;
@@ -202,6 +253,17 @@ Section TopoProofs.
     rewrite sort_idem, !M. split; [apply first_diff_refl | reflexivity].
   Qed.
 End TopoProofs.
+
+(* repaired flag: full statement, for every sort *)
+Lemma topo_fixed_flag_sound sort m : snd (topo_pass_fixed sort m) = false -> fst (topo_pass_fixed sort m) = m.
+Proof.
+  unfold topo_pass_fixed. simpl. intros H. apply negb_false_iff in H.
+  unfold tmodel_eqb, lists_eqb in H. simpl in H.
+  apply andb_prop in H. destruct H as [H H3]. apply andb_prop in H. destruct H as [H1 H2].
+  assert (LE : forall a b, list_eqb Pos.eqb a b = true <-> a = b) by (apply list_eqb_eq; apply Pos.eqb_eq).
+  apply LE in H1. apply (list_eqb_eq _ LE) in H2. apply (list_eqb_eq _ LE) in H3.
+  destruct m as [mn fs ss]. simpl in *. rewrite <- H1, <- H2, <- H3. reflexivity.
+Qed.
 
 (* a subgraph [2;1] that sort puts in order, nothing at top level *)
 Definition w_sort (l : list positive) : list positive :=
